@@ -24,7 +24,15 @@ added to the pool, and immediately after every restart, for every pooled instanc
 Independent oracle: the module itself declares, per generated graph, which instances (task, cycle points of the
 recurrence) depend on which upstream output (point, task, message); completion of an upstream output is observed
 independently of the mechanism under test (outputs of the upstream task proxy while it is in the pool, and the
-task_outputs table of the private database) and latched."""
+task_outputs table of the private database) and latched.
+
+Harness notes: Scheduler.INTERVAL_MAIN_LOOP and the network thread's poll intervals are overridden per instance
+(speed only); the process-wide GraphNodeParser cache is cleared before each scheduler (each real scheduler is a
+new process).  One result per clause group: (1)+(2) in uninterrupted runs, (3), (4).
+
+Finding kept visible (see kf_first_child_already_ran): clauses (1) and (3) are REFUTED by the real code when the
+one graph child that spawn_on_output lists for an absolute trigger cannot be spawned (it already ran, or lies
+before the start point of a warm start): the dependents waiting in the pool are then never satisfied."""
 import asyncio
 import json
 import os
@@ -172,12 +180,20 @@ class _Env:
     """scratch HOME / cylc-run, and restoration of everything a Scheduler touches in this process"""
 
     def __enter__(self):
-        import logging
-        import signal
         self.home = tempfile.mkdtemp(prefix='verif_c45_', dir='/var/tmp')
         self.environ = dict(os.environ)
         self.cwd = os.getcwd()
         self.syspath = list(sys.path)
+        self.loggers, self.signals, self.saved = {}, {}, False
+        try:
+            return self._enter()
+        except BaseException:
+            self.__exit__()
+            raise
+
+    def _enter(self):
+        import logging
+        import signal
         os.makedirs(os.path.join(self.home, 'conf'))
         os.environ['HOME'] = self.home
         os.environ['CYLC_CONF_PATH'] = os.path.join(self.home, 'conf')
@@ -189,17 +205,16 @@ class _Env:
         from cylc.flow import flags, wallclock
         from metomi.isodatetime.data import CALENDAR
         self.cycler = vars(loader.DefaultCycler).get('TYPE', _Env)      # _Env = "was unset"
-        self.iso ={k: v for k, v in vars(iso8601.WorkflowSpecifics).items() if not k.startswith('__')}
+        self.iso = {k: v for k, v in vars(iso8601.WorkflowSpecifics).items() if not k.startswith('__')}
         self.calendar = CALENDAR.mode
         self.utc = wallclock.get_utc_mode()
         self.flags = (flags.verbosity, flags.cylc7_back_compat)
-        self.signals = {}
+        self.saved = True
         for sig in (signal.SIGINT, signal.SIGTERM, signal.SIGHUP):
             try:
                 self.signals[sig] = signal.getsignal(sig)
             except (ValueError, OSError):
                 pass
-        self.loggers = {}
         for lname in ('cylc', 'cylc-install', 'cylc-reinstall'):
             lg = logging.getLogger(lname)
             self.loggers[lname] = (list(lg.handlers), lg.level, lg.propagate)
@@ -210,6 +225,21 @@ class _Env:
         return self
 
     def __exit__(self, *exc):
+        try:
+            self._restore_cylc()
+        finally:
+            os.environ.clear()
+            os.environ.update(self.environ)
+            sys.path[:] = self.syspath
+            os.chdir(self.cwd)
+            try:
+                from cylc.flow.cfgspec.glbl_cfg import glbl_cfg
+                glbl_cfg(reload=True)
+            finally:
+                shutil.rmtree(self.home, ignore_errors=True)
+        return False
+
+    def _restore_cylc(self):
         import logging
         import signal
         for lname, (handlers, level, propagate) in self.loggers.items():
@@ -229,6 +259,8 @@ class _Env:
                     signal.signal(sig, handler)
             except (ValueError, OSError):
                 pass
+        if not self.saved:
+            return
         from cylc.flow.cycling import loader, iso8601
         from cylc.flow import flags, wallclock
         from metomi.isodatetime.data import CALENDAR
@@ -248,14 +280,6 @@ class _Env:
         from cylc.flow.graphnode import GraphNodeParser
         GraphNodeParser.get_inst().clear()
         flags.verbosity, flags.cylc7_back_compat = self.flags
-        os.environ.clear()
-        os.environ.update(self.environ)
-        sys.path[:] = self.syspath
-        os.chdir(self.cwd)
-        from cylc.flow.cfgspec.glbl_cfg import glbl_cfg
-        glbl_cfg(reload=True)
-        shutil.rmtree(self.home, ignore_errors=True)
-        return False
 
 
 # ---------------------------------------------------------------------------------------------------------
